@@ -22,6 +22,10 @@ FIXES = [  # (commit, property, expected class prefix, VSIM_COUNT)
     ('979adeb', 'C14', 'R-', 3200),
     ('901b2bf', 'C14', 'R-tolerance-not-met', 3200),
     ('7049b8a', 'C18', 'J1-unexpected-exception', 360),
+    ('4ef6b58', 'C14', 'R-non-finite-residual-accepted', 3200),
+    ('6fc77f8', 'C14', 'R-non-finite-residual-accepted', 3200),
+    ('2452f56', 'C14', 'R-tolerance-not-met', 3200),
+    ('297b96c', 'C14', 'R-tolerance-not-met', 3200),
 ]
 
 
